@@ -136,6 +136,7 @@ def main():
             "namespace WaVerif.C03.Rows", "open WaVerif WaVerif.Wasm WaVerif.C03 WaVerif.Gen.C03", ""]
     outs = dict((g, list(head)) for g in GROUPS)
     wit = {}
+    agg = []         # (theorem name, statement) restated in Props/C03.lean
     n_ok = n_false = 0
     cand = [r for r in R.all_rows() if r.name in modelled and statement(r) is not None]
     failing = probe([r for r in cand if len(r.params) in (1, 2, 3)]) if auto else None
@@ -160,14 +161,29 @@ def main():
             out.append("theorem %s_sound : Sound2 %s f_%s := by\n  unfold f_%s\n  c03_sound\n" % (nm, body, nm, nm))
             ex = ("1", "4") if "rot" in guard else ("3", "2")
             out.append("example : %s %s %s := by decide\n" % (guard, lit(ex[0], row.params[0]), lit(ex[1], row.params[1])))
+            agg += [("%s_partial" % nm, "Partial2 %s %s %s f_%s" % (injs, guard, spec, nm)), ("%s_full_false" % nm, "¬ Full2 %s f_%s" % (body, nm)),
+                    ("%s_sound" % nm, "Sound2 %s f_%s" % (body, nm))]
             wit[nm] = {"key": row.key, "args": w, "why": why}
             n_false += 1
         else:
             out.append("theorem %s_ok : Full%d %s f_%s := by\n  unfold f_%s\n  c03_tac\n" % (nm, ar, body, nm, nm))
+            agg.append(("%s_ok" % nm, "Full%d %s f_%s" % (ar, body, nm)))
             n_ok += 1
     for g in GROUPS:
         outs[g].append("end WaVerif.C03.Rows")
         open(os.path.join(V, "lean/WaVerif/Props/C03Rows%s.lean" % g), "w").write("\n".join(outs[g]) + "\n")
+    top = ["import " + m for m in modules()] + [
+        "/-! C03 — the property theorems: one group per regenerated C template of an integer instruction (statement forms in",
+        "    Model/C03Spec.lean; proofs in Props/C03Rows*.lean, restated here so that every one is axiom-audited once).",
+        "    `<row>_ok`: the C function wat2c emits returns WebAssembly's result for ALL operands and memories, memory unchanged, and aborts where",
+        "    WebAssembly traps.  Rows where that is false: `<row>_partial` (same under the instruction's operand guard), `<row>_full_false`",
+        "    (negation by a concrete witness, replayed through compiled C by the check) and `<row>_sound` (defined C behaviour ⇒ WebAssembly's result).",
+        "    Written by tools/gen_c03_props.py. -/",
+        "namespace WaVerif.C03", "open WaVerif WaVerif.Wasm WaVerif.C03 WaVerif.Gen.C03", ""]
+    for n, st in agg:
+        top.append("theorem %s : %s := Rows.%s" % (n, st, n))
+    top.append("end WaVerif.C03")
+    open(os.path.join(V, "lean/WaVerif/Props/C03.lean"), "w").write("\n".join(top) + "\n")
     old = os.path.join(V, "lean/WaVerif/Props/C03Rows.lean")
     if os.path.exists(old):
         os.remove(old)
